@@ -45,11 +45,17 @@ Definition digit (k : nat) : string := match k with O => "0" | 1%nat => "1" | 2%
 Definition suffixed (a : string) (k : nat) : string := String.append a (String.append "_" (digit k)).
 Definition unspec_names (d : nat) (a : string) : list string :=
   match d with 1%nat => [a] | _ => map (suffixed a) (seq 0 d) end.
-(* the WriteUnspecifiedProperties loops: dimensions 4,3,2,1; TexCoord is never written per vertex *)
+(* the WriteUnspecifiedProperties loops: dimensions 4,3,2,1.  TexCoord (after fix ad4b3e5): a triangle mesh
+   carries it per corner in the face element, any other topology writes it per vertex as float s, t *)
 Definition unspec_of_dim (m : wmesh) (cl : list pw) (d : nat) : list pw :=
   flat_map (fun x => if Nat.eqb (wa_dim x) d && negb (claimed cl d (wa_name x))
-                        && negb (Nat.eqb d 2 && seqb (wa_name x) "TexCoord")
-                     then [PW d (wa_name x) (unspec_names d (wa_name x)) Float] else []) (w_attrs m).
+                     then if Nat.eqb d 2 && seqb (wa_name x) "TexCoord"
+                          then match w_topo m with
+                               | TTriangle => []
+                               | TPoint => [PW 2 "TexCoord" ["s"; "t"]%string Float]
+                               end
+                          else [PW d (wa_name x) (unspec_names d (wa_name x)) Float]
+                     else []) (w_attrs m).
 Definition effective_writers (o : wopts) (m : wmesh) : list pw :=
   let q := filter (qualifies m) (o_writers o) in
   if o_unspec o then q ++ flat_map (unspec_of_dim m q) [4; 3; 2; 1]%nat else q.
@@ -178,7 +184,8 @@ Definition val (t : sty) (w : N) : result N :=
   end.
 (* reader's view of the vertex properties: recognised groups stay groups, every other property is a scalar *)
 Definition is_default_writer (w : pw) : bool :=
-  existsb (fun d => Nat.eqb (pw_dim d) (pw_dim w) && seqb (pw_attr d) (pw_attr w)) default_writers.
+  existsb (fun d => Nat.eqb (pw_dim d) (pw_dim w) && seqb (pw_attr d) (pw_attr w)) default_writers
+  || (Nat.eqb (pw_dim w) 2 && seqb (pw_attr w) "TexCoord").     (* written as s, t: the reader's TexCoord group *)
 Definition split_group (g : rgroup) : list rgroup :=
   map (fun '(j, n) => {| rg_attr := n; rg_names := [n]; rg_ty := rg_ty g; rg_rows := map (fun r => [nth j r 0]) (rg_rows g) |})
       (combine (seq 0 (List.length (rg_names g))) (rg_names g)).
